@@ -427,6 +427,56 @@ def make_cells(tier):
         cells.append(Cell("correct/accurate_n%d_m%d" % (n, m), acc_case(), check_acc, lambda c: c["r"] <= 1e-3,
                           lambda c: ["r=%.0e" % c["r"]], quick=80, thorough=1500, build=lambda n=n, m=m: correct_fn(n, m).build()))
 
+    # ---- measurement noise factors that are dense and strongly anisotropic (a rotated diag(s, s, 1e6 s), the shape of the
+    #      estimator's magnetometer factor): the gain must stay accurate (oracle: 60-digit arithmetic)
+    def dense_correct_fn(n, m):
+        k = ("corr_dense", n, m)
+        if k not in _fn:
+            def mk():
+                W = ca.SX.sym("W", ca.Sparsity.lower(n))
+                H = ca.SX.sym("H", m, n)
+                Rs = ca.SX.sym("Rs", m, m)
+                Wp, K, Ss = util().sqrt_correct(Rs, H, W)
+                return [Rs, H, W], [ca.densify(Wp), ca.densify(K), ca.densify(Ss)]
+
+            _fn[k] = cy.Fn("sqrt_correct_dense_%d_%d" % (n, m), mk)
+        return _fn[k]
+
+    for n, m in ((4, 2), (6, 3)):
+        @st.composite
+        def aniso_case(draw, n=n, m=m):
+            return {"W": draw(lower_tri(n, 0.3, 3.0)), "H": draw(dense(m, n, scales=(0,))), "Q": draw(dense(m, m, scales=(0,))),
+                    "kappa": 10.0 ** draw(st.sampled_from([0, 2, 4, 5, 6])), "sigma": 10.0 ** draw(st.sampled_from([-3, -2, 0]))}
+
+        def check_aniso(case, n=n, m=m):
+            W, H = np.array(case["W"], float), np.array(case["H"], float)
+            A = np.array(case["Q"], float)
+            require(abs(np.linalg.det(A)) > 1e-3 and 1 <= case["kappa"] <= 1e7 and 1e-4 <= case["sigma"] <= 10)
+            Qo, _ = np.linalg.qr(A)
+            d = np.ones(m)
+            d[-1] = case["kappa"]
+            Rs = Qo @ np.diag(d) * case["sigma"]
+            require(float(np.linalg.cond((H @ W) @ (H @ W).T)) < 1e6)
+            f = dense_correct_fn(n, m).build()
+            spL = ca.Sparsity.lower(n)
+            Wdm = ca.DM(spL, [float(W[r_, c_]) for r_, c_ in zip(*spL.get_triplet())])
+            Wp, K, Ss = [np.array(o, float) for o in f.call([ca.DM(Rs), ca.DM(H), Wdm])]
+            if not (np.all(np.isfinite(Wp)) and np.all(np.isfinite(K)) and np.all(np.isfinite(Ss))):
+                raise Violation("sqrt_correct(n=%d,m=%d): non-finite result with an anisotropic noise factor (ratio %.0e)" % (n, m, case["kappa"]), **case)
+            mp.mp.dps = 60
+            mW, mH, mR = mp.matrix(W.tolist()), mp.matrix(H.tolist()), mp.matrix(Rs.tolist())
+            mP = mW * mW.T
+            mS = mH * mP * mH.T + mR * mR.T
+            Kr = np.array((mP * mH.T * mp.inverse(mS)).tolist(), dtype=float)
+            sc = float(np.max(np.abs(Kr)))
+            err = float(np.max(np.abs(K - Kr)))
+            if err > 1e-9 * sc + 1e-300:
+                raise Violation("sqrt_correct(n=%d,m=%d): Kalman gain off by %.3e relative with a dense noise factor whose channels differ by "
+                                "%.0e (60-digit reference; the unchanged tree is accurate to 1e-14 here)" % (n, m, err / sc, case["kappa"]), **case)
+
+        cells.append(Cell("correct/anisotropic_n%d_m%d" % (n, m), aniso_case(), check_aniso, lambda c: c["kappa"] >= 1e4,
+                          lambda c: ["kappa=%.0e" % c["kappa"]], quick=60, thorough=1000, build=lambda n=n, m=m: dense_correct_fn(n, m).build()))
+
     # ---- call histories of sqrt_covariance_predict in one process: the derivation is redone for every call, so a call
     #      must not depend on the sparsity patterns of earlier calls with the same dimension (module state reset per case)
     PATS = ("dense", "diagQ", "sparseF", "diagF_diagQ", "bandW")
